@@ -37,7 +37,9 @@ func optsDir() string {
 // cfgSpelling: how the configuration file is named on the command line. Go's flag package accepts all four.
 var cfgSpelling int
 
-var cfgSpellings = []string{"-config FILE", "-config=FILE", "--config FILE", "--config=FILE"}
+var cfgSpellings = []string{"-config FILE", "-config=FILE", "--config FILE", "--config=FILE",
+	// relative names, resolved against the working directory as any file name is
+	"-config NAME (bare name, in the working directory)", "-config ./NAME", "-config=NAME (bare name)", "-config SUBDIR/NAME"}
 
 // runFlagSet runs the real option loading with the given environment, file content and arguments.
 func runFlagSet(env map[string]string, file string, args []string) (o *Options, err interface{}) {
@@ -53,7 +55,24 @@ func runFlagSet(env map[string]string, file string, args []string) (o *Options, 
 	if file != "" {
 		p := filepath.Join(optsDir(), "vflow.conf")
 		os.WriteFile(p, []byte(file), 0644)
+		if cfgSpelling >= 4 {
+			wd, _ := os.Getwd()
+			os.Chdir(optsDir())
+			defer os.Chdir(wd)
+			if cfgSpelling == 7 {
+				os.MkdirAll(filepath.Join(optsDir(), "sub"), 0755)
+				os.WriteFile(filepath.Join(optsDir(), "sub", "vflow.conf"), []byte(file), 0644)
+			}
+		}
 		switch cfgSpelling {
+		case 4:
+			full = append(full, "-config", "vflow.conf")
+		case 5:
+			full = append(full, "-config", "./vflow.conf")
+		case 6:
+			full = append(full, "-config=vflow.conf")
+		case 7:
+			full = append(full, "-config", "sub/vflow.conf")
 		case 1:
 			full = append(full, "-config="+p)
 		case 2:
@@ -161,7 +180,7 @@ func optsSingle(tier string) mck.Space {
 		cfgSpelling = d[3]
 		defer func() { cfgSpelling = 0 }()
 		dash := "-"
-		if d[3] >= 2 {
+		if d[3] == 2 || d[3] == 3 {
 			dash = "--"
 		}
 		if s.flag == "" && subset&4 != 0 {
@@ -248,6 +267,9 @@ func optsSingle(tier string) mck.Space {
 			sp := ""
 			if d[3] != 0 {
 				sp = ":" + cfgSpellings[d[3]][:strings.Index(cfgSpellings[d[3]], "g")+1] + map[bool]string{true: "=", false: " "}[d[3]%2 == 1] + "FILE"
+				if d[3] >= 4 {
+					sp = ":relative-config-path"
+				}
 			}
 			c.Violation(fmt.Sprintf("opts:precedence:%s:given[%s]%s", s.kind, strings.Join(have, "+"), sp), fmt.Sprintf("%s = %q, expected %q (from %s; config given as %s)", s.yaml, got, want, from, cfgSpellings[d[3]]), dd)
 		}
